@@ -48,7 +48,10 @@ def configs(ctx):
     w2 = [w for w in c02.configs(Q) if not w["tag"].startswith("P7")]
     src += w2[::(4 if quick else 1)]
     w3 = c03.configs(Q)
-    src += w3[::(3 if quick else 1)]
+    # every configuration whose *output* is flattened / partitioned together with inputs (element-wise templates), a slice of
+    # the others
+    ew = [w for w in w3 if w["tag"].startswith(("EW2/flat", "EW3/flat:", "EW4/"))]
+    src += ew + [w for w in w3[::(3 if quick else 1)] if w not in ew]
     for w in src:
         cfg = dict(w)
         if w["tag"].startswith(("ACC/", "EW4/")):
